@@ -168,3 +168,18 @@ rule raw_reads {
     $mz at 0 or $pe in (0 .. 1024) or #re > 3 or @re[1] > 100 or !re[1] > 8 or $mz at pe.entry_point or $pe in (elf.entry_point .. filesize) or
     entrypoint == 1
 }
+
+// Every string-returning module function called several times in ONE scan with arguments that make its result
+// defined, then undefined, then defined again (the function's return object is shared by all calls of a scan).
+// All comparisons are false or undefined, so `or` never short-circuits and every call is executed in order.
+rule string_results_defined_undefined_defined {
+  condition:
+    math.to_string(255, 16) == "zz" or math.to_string(255, 7) == "zz" or math.to_string(10, 10) == "zz" or math.to_string(1, 3) == "zz" or math.to_string(filesize) == "zz" or
+    hash.md5(0, 3) == "zz" or hash.md5(filesize, 1) == "zz" or hash.md5(0, 2) == "zz" or hash.md5(filesize + 5, 5) == "zz" or hash.md5(1, 1) == "zz" or
+    hash.sha1(0, 3) == "zz" or hash.sha1(filesize, 1) == "zz" or hash.sha1(0, 2) == "zz" or
+    hash.sha256(0, 3) == "zz" or hash.sha256(filesize, 1) == "zz" or hash.sha256(0, 2) == "zz" or
+    hash.md5("a") == "zz" or hash.md5(filesize, 1) == "zz" or hash.md5("b") == "zz" or hash.sha1("a") == "zz" or hash.sha256("a") == "zz" or
+    pe.imphash() == "zz" or pe.imphash() == "yy" or elf.telfhash() == "zz" or elf.telfhash() == "yy" or elf.import_md5() == "zz" or elf.import_md5() == "yy" or
+    math.to_string(255, 16) == math.to_string(255, 9) or hash.md5(0, 3) == hash.md5(filesize, 3) or hash.md5(filesize, 3) == hash.md5(0, 3) or
+    (for any i in (0..4) : ( hash.md5(i * (filesize \ 2), 2) == "zz" or math.to_string(i, 8 + i * 4) == "zz" or hash.sha256(filesize - i, 2) == "zz" ))
+}
